@@ -1,0 +1,9 @@
+//go:build verif
+
+package x509
+
+// Verification hook for property C02 (operations on parsed certificates are total and deterministic).
+// Add-only; built only with -tags verif.
+
+// ZVC02PurgeNameDuplicates exposes purgeNameDuplicates (the deterministic name list of the JSON view).
+func ZVC02PurgeNameDuplicates(names []string) []string { return purgeNameDuplicates(names) }
